@@ -748,6 +748,20 @@ func (c *Ctx) resolveMod(env *CEnv, m Clause) modLoc {
 		}
 		pt, ok := base.T.Underlying().(*types.Pointer)
 		if !ok {
+			// a field of a struct-valued field: p.a.b (keys are flattened paths below the pointer's element type)
+			if inner, isSel := e.X.(*ast.SelectorExpr); isSel {
+				if stv, isStruct := base.T.Underlying().(*types.Struct); isStruct {
+					il := c.resolveMod(env, Clause{Text: m.Text, Expr: inner})
+					if il.keyPfx != "" && !il.whole && il.ref != "" {
+						for i := 0; i < stv.NumFields(); i++ {
+							if stv.Field(i).Name() == e.Sel.Name {
+								return modLoc{keyPfx: il.keyPfx + "." + e.Sel.Name, ref: il.ref, t: stv.Field(i).Type()}
+							}
+						}
+						cerr("modifies %s: no such field", m.Text)
+					}
+				}
+			}
 			cerr("modifies %s: base is not a pointer", m.Text)
 		}
 		r, _ := ptrAsRef(base.V)
